@@ -146,11 +146,23 @@ Definition phase_corr_stack (w : nat -> nat -> nat -> cxT) (l f d : nat) : cxT :
 End Beam.
 
 (* ======================= get_bf_vector: the name grammar (beamformer_wrapper.py:117-236) ============ *)
-Definition str_endswith (s suf : string) : bool :=
-  let n := String.length s in let m := String.length suf in
-  if Nat.ltb n m then false else String.eqb (substring (n - m) m s) suf.
-Definition str_drop_right (s : string) (m : nat) : string := substring 0 (String.length s - m) s.
-Definition str_drop (n : nat) (s : string) : string := substring n (String.length s - n) s.
+(* s.endswith(suf): some suffix of s equals suf *)
+Fixpoint str_endswith (s suf : string) : bool :=
+  if String.eqb s suf then true else
+  match s with EmptyString => false | String _ r => str_endswith r suf end.
+Fixpoint str_take (n : nat) (s : string) : string :=
+  match n, s with
+  | S k, String c r => String c (str_take k r)
+  | _, _ => EmptyString
+  end.
+(* s[:-m] (for m <= len s) and s[n:] *)
+Definition str_drop_right (s : string) (m : nat) : string := str_take (String.length s - m) s.
+Fixpoint str_drop (n : nat) (s : string) : string :=
+  match n, s with
+  | S k, String _ r => str_drop k r
+  | _, _ => s
+  end.
+(* pat in s *)
 Fixpoint str_contains (pat s : string) : bool :=
   if prefix pat s then true else
   match s with EmptyString => false | String _ r => str_contains pat r end.
